@@ -42,6 +42,10 @@ func (ex *Executor) execInstr(st *State, fr *Frame, ins ssa.Instruction) bool {
 		return true
 	case *ssa.FieldAddr:
 		base := ex.value(st, fr, x.X)
+		if base.T != nil && base.T.IsNum() && base.T.Num.Sign() == 0 && base.P == nil {
+			// field of a pointer that is the constant nil on this path: a certain nil dereference if the path is feasible
+			ex.safeObl(st, ins, "nil", tFalse, "field access through a nil pointer is unreachable")
+		}
 		owner := x.X.Type().Underlying().(*types.Pointer).Elem()
 		f := structOf(owner).Field(x.Field)
 		var bt *Term
